@@ -155,6 +155,7 @@ func init() {
 		SingleThread: true,
 		Spaces: func(c *sup.Ctx) []*sup.Space {
 			contents := itemSets(c03Content, 2)
+			quick := c.Quick()
 			var probes [][]c03Probe
 			var singles []c03Probe
 			for qi := range c03ProbeQueries {
@@ -189,6 +190,17 @@ func init() {
 				i /= no
 				pr := probes[i%np]
 				x := blockOf(contents[i/np])
+				if quick && otherHasFact {
+					// quick tier: the "other block carries a fact" dimension is crossed with the fact/rule items of
+					// the adversarial alphabet only, not with the set-computing and failing rules (thorough: all)
+					for _, r := range x.Rules {
+						switch r.Head.Name {
+						case "narrowed", "widened", "chained", "rechained", "promoted":
+							w.Class("left-to-the-thorough-tier")
+							return
+						}
+					}
+				}
 				auth := refdl.Block{Facts: []refdl.Atom{fOpRead}}
 				var pol []refdl.Policy
 				other := refdl.Block{}
